@@ -87,9 +87,28 @@ class Ctx:
 FORBIDDEN = re.compile(r"\b(Admitted|admit|Axiom|Parameter|Conjecture|Unset\s+Guard|bypass_check|type-in-type|"
                        r"Admit\s+Obligations|Unset\s+Positivity|Unset\s+Universe)\b")
 
-def grep_forbidden():
+def coq_closure(prop_v):
+    """the .v files the property file transitively Requires (inside coq/), itself included"""
+    seen, todo = set(), [prop_v]
+    while todo:
+        f = todo.pop()
+        if f in seen: continue
+        p = os.path.join(COQ, f)
+        if not os.path.exists(p): continue
+        seen.add(f)
+        txt = re.sub(r"\(\*.*?\*\)", "", open(p).read(), flags=re.S)
+        for m in re.finditer(r"From\s+OVM\s+Require\s+(?:Import|Export)\s+(.*?)\.(?=\s)", txt, flags=re.S):
+            for mod in m.group(1).split():
+                todo.append(mod.replace(".", "/") + ".v")
+        for m in re.finditer(r"(?<!From OVM )Require\s+(?:Import|Export)\s+OVM\.([\w.]+?)\.(?=\s)", txt):
+            todo.append(m.group(1).replace(".", "/") + ".v")
+    return sorted(seen)
+
+def grep_forbidden(prop_v=None):
+    """Admitted / admit / Axiom / ... in the files the property file depends on (all files when prop_v is None)"""
     bad = []
-    for p in glob.glob(os.path.join(COQ, "**", "*.v"), recursive=True):
+    files = [os.path.join(COQ, f) for f in coq_closure(prop_v)] if prop_v else glob.glob(os.path.join(COQ, "**", "*.v"), recursive=True)
+    for p in files:
         txt = re.sub(r"\(\*.*?\*\)", "", open(p).read(), flags=re.S)
         for m in FORBIDDEN.finditer(txt):
             bad.append("%s: %s" % (os.path.relpath(p, COQ), m.group(0)))
@@ -136,7 +155,8 @@ def coq_prove(ctx, prop_v, timeout=1500):
     with Lock("coq"):
         ensure_makefile()
         vo = prop_v[:-2] + ".vo"
-        bad = grep_forbidden()
+        bad = grep_forbidden(prop_v)
+        ctx.cov["coq_files_in_dependency_closure"] = len(coq_closure(prop_v))
         if bad:
             ctx.broken.append({"kind": "forbidden", "name": "grep Admitted/Axiom/...", "detail": "; ".join(bad[:10])})
         # deps first (keep going), then the property file itself with output captured
